@@ -137,6 +137,7 @@ type funcInfo struct {
 	writes  bool // pointer receiver whose fields are assigned (directly or through calls): the receiver is returned
 	loops   bool // contains a loop (directly or through calls): takes `fuel`
 	callees map[*funcInfo]bool
+	named   []*types.Var // [BitsCode] named results (all or none)
 	done    bool
 	// [ext:T20]
 	greads, gwrites map[*globalInfo]bool // package-level state read / written (directly or through calls)
@@ -177,6 +178,9 @@ func (stubImporter) Import(path string) (*types.Package, error) {
 		return p, nil
 	}
 	p := types.NewPackage(path, filepath.Base(path))
+	if path == "math/bits" { // [BitsCode] the population counts of math/bits are typed, so that calls to them translate
+		declareOnesCount(p)
+	}
 	if path == "errors" { // [ext:T20] errors.New has a type, so that `var ErrX = errors.New("..")` and `err == ErrX` are typed
 		sig := types.NewSignatureType(nil, nil, nil, types.NewTuple(types.NewVar(token.NoPos, p, "text", types.Typ[types.String])),
 			types.NewTuple(types.NewVar(token.NoPos, p, "", types.Universe.Lookup("error").Type())), false)
@@ -291,7 +295,7 @@ var coqReserved = strings.Fields(`as at cofix else end exists exists2 fix for fo
  Type using where with Z nat list bool unit option true false tt fst snd inl inr negb andb orb xorb eqb repeat length app
  fuel bind Ret Panic NoFuel lift lift_fuel mmap zlen wrap m_rem m_quot m_shl m_shr m_get m_set m_slice m_make m_make_cap
  m_copy copy_all gocopy gorem goquot get_at set_at slice upd while ctl Next Break Return M Some None S O
- swrap str_of_byte`)
+ swrap str_of_byte ones_count`)
 
 func funcKey(fd *ast.FuncDecl) string {
 	n := fd.Name.Name
@@ -509,8 +513,11 @@ func (t *Translator) addFunc(key string) *funcInfo {
 	}
 	for i := 0; i < sig.Results().Len(); i++ {
 		rv := sig.Results().At(i)
-		if rv.Name() != "" {
-			t.fail(fd, "named result %s of %s", rv.Name(), key)
+		if rv.Name() == "_" {
+			t.fail(fd, "blank named result of %s", key)
+		}
+		if rv.Name() != "" { // [BitsCode] named results: locals initialised to zero; a bare return yields their values
+			fi.named = append(fi.named, rv)
 		}
 		g := t.typeOf(rv.Type(), fd)
 		if g.k == kStruct && g.ptr {
@@ -800,4 +807,34 @@ func indentCoq(s string) string {
 		depth += strings.Count(l, "(") - strings.Count(l, ")")
 	}
 	return b.String()
+}
+
+// ---- [BitsCode] math/bits.OnesCount* ---------------------------------------------------------------------------------
+// The stub importer gives math/bits typed declarations of OnesCount, OnesCount8/16/32/64 (func(uintN) int); a call
+// translates to `ones_count N x` of Lib/GoSem.v (the number of set bits among positions 0..N-1: the function by its
+// specification; the standard library is not translated).
+var onesCountBits = map[string]int{"OnesCount": 64, "OnesCount8": 8, "OnesCount16": 16, "OnesCount32": 32, "OnesCount64": 64}
+var onesCountArg = map[string]types.BasicKind{"OnesCount": types.Uint, "OnesCount8": types.Uint8, "OnesCount16": types.Uint16,
+	"OnesCount32": types.Uint32, "OnesCount64": types.Uint64}
+
+func declareOnesCount(p *types.Package) {
+	for name, k := range onesCountArg {
+		sig := types.NewSignatureType(nil, nil, nil,
+			types.NewTuple(types.NewVar(token.NoPos, p, "x", types.Typ[k])),
+			types.NewTuple(types.NewVar(token.NoPos, p, "", types.Typ[types.Int])), false)
+		p.Scope().Insert(types.NewFunc(token.NoPos, p, name, sig))
+	}
+}
+
+// onesCountCall: is the call math/bits.OnesCountN(x)?  Returns N (0: no).
+func (t *Translator) onesCountCall(call *ast.CallExpr) int {
+	sel, ok := ast.Unparen(call.Fun).(*ast.SelectorExpr)
+	if !ok {
+		return 0
+	}
+	fn, ok := t.info.Uses[sel.Sel].(*types.Func)
+	if !ok || fn.Pkg() == nil || fn.Pkg().Path() != "math/bits" || len(call.Args) != 1 {
+		return 0
+	}
+	return onesCountBits[fn.Name()]
 }
